@@ -6,6 +6,15 @@ import (
 
 // c14SpecPairs: reference encodings of descriptor bodies (EN 300 468 clause 6.2, ISO 13818-1 2.6) handed to
 // parseDescriptors (rule A4). Filled in by descriptorSpecs.
+// c13LoopPairs: the framing of descriptor loops inside the SI tables (12-bit descriptors_loop_length, loops of several
+// descriptors, loops above 1023 and 2047 bytes); the bodies themselves are decided under C14.
+func c13LoopPairs(c *Ctx) []layout.RTPair {
+	return []layout.RTPair{
+		{Name: "spec/descriptor-loop", Parser: c.fn("parseDescriptors"), Sources: longLoopSpecs, It: "$i", Root: "$ds", MinSources: 2,
+			Computed: descriptorSpecComputed(), Why: descriptorSpecWhy(), ElsewherePrefix: "[].", ElsewhereWhy: "descriptor bodies are decided under C14"},
+	}
+}
+
 func c14SpecPairs(c *Ctx) []layout.RTPair {
 	srcs := descriptorSpecs
 	if srcs == nil {
